@@ -88,7 +88,7 @@ func (c18) Gen(seed uint64, idx int, tier string) *Scenario {
 	case 3:
 		sc.SetStr("mode", "fault")
 		sc.SetStr("filemode", "name")
-		sc.SetStr("fault", prng.Pick(r, []string{"src-open", "src-read", "src-read", "dump-create", "dump-write", "dump-close", "load-open", "load-read"}))
+		sc.SetStr("fault", prng.Pick(r, []string{"src-open", "src-read", "src-read", "dump-create", "dump-write", "dump-write", "dump-close", "dump-kill", "load-open", "load-read"}))
 		sc.SetInt("when", r.Range(1, 4))
 	default:
 		sc.SetStr("mode", "plain")
@@ -245,7 +245,7 @@ func runBin(dir string, args []string, stdin []byte, strace []string) procResult
 	Beat()
 	if strace != nil {
 		if b, err := os.ReadFile(slog); err == nil {
-			pr.injected = bytes.Contains(b, []byte("(INJECTED)"))
+			pr.injected = bytes.Contains(b, []byte("(INJECTED)")) || bytes.Contains(b, []byte("killed by SIGKILL"))
 		}
 	}
 	return pr
@@ -413,7 +413,7 @@ func (c18) Run(t *testing.T, sc *Scenario) *Outcome {
 		case "src-read":
 			args = spellArgs(r, flags, srcName, nil)
 			strace = inj(spath, "read", "EIO", 1+(when-1)%(len(sc.Src)/4096+2))
-		case "dump-create", "dump-write", "dump-close":
+		case "dump-create", "dump-write", "dump-close", "dump-kill":
 			os.WriteFile(bpath, nil, 0o644) // strace -P resolves existing paths only
 			defer os.Remove(bpath)
 			args = spellArgs(r, flags, srcName, []string{"--bdump=" + bcb})
@@ -422,6 +422,9 @@ func (c18) Run(t *testing.T, sc *Scenario) *Outcome {
 				strace = inj(bpath, "openat", "EACCES", 1)
 			case "dump-write":
 				strace = inj(bpath, "write", prng.Pick(r, []string{"ENOSPC", "EIO"}), 1+(when-1)%(len(dump)/4096+1))
+			case "dump-kill":
+				// the process is killed at its k-th write to the dump file: a crash in the middle of the dump
+				strace = []string{"-P", bpath, "-P", filepath.Base(bpath), "-e", "trace=write", "-e", fmt.Sprintf("inject=write:signal=SIGKILL:when=%d", 1+(when-1)%(len(dump)/4096+1))}
 			default:
 				strace = inj(bpath, "close", "EIO", 1)
 			}
@@ -450,6 +453,18 @@ func (c18) Run(t *testing.T, sc *Scenario) *Outcome {
 			return o
 		}
 		o.fault("syscall_error:"+fault, 1)
+		if fault == "dump-kill" {
+			// no exit status to judge; what the crash left on disk must not load as a program
+			if fb, err := os.ReadFile(bpath); err == nil && dump != nil && !bytes.Equal(fb, dump) {
+				lg := runBin(dir, []string{"--bload=" + bcb}, nil, nil)
+				o.Evals++
+				if lg.status == 0 {
+					bad("dump", "the file left behind by a process killed in the middle of --bdump loads and runs successfully", fmt.Sprintf("%d of %d bytes on disk", len(fb), len(dump)), args)
+				}
+				o.probe("crash_leftover_loaded", 1)
+			}
+			return o
+		}
 		if got.status != 1 {
 			bad("status", "I/O error ("+fault+") does not exit with status 1", fmt.Sprintf("exit status %d; stdout %q stderr %q", got.status, short(got.stdout, 200), short(got.stderr, 200)), args)
 		} else if got.stderr == "" {
